@@ -46,6 +46,9 @@ CHECKS = {
  "C15": ("Histories of captain operations (create, replace state, replace spec, delete, re-create; also emitted by machines) and ordinary messages are driven through the real crew; after every message the reported changes are folded into a shadow store (as sio.Stdio does) and compared with the live crew (ShadowEqualsLive), and at every boundary a second real crew is booted from the store and fed the rest (RestartEquivalent); TLC judges.",
          "8.C15", "seeded histories over 2 machine ids and 2 spec versions, 2-8 messages, restart at every boundary; store records pass through JSON",
          "TLA+ shadow-store/restart predicates (CrewProp.tla) + recorded histories of the real crew judged by TLC"),
+ "C16": ("McrewService.tla models the service's critical sections (lock, memory, bolt store, fault toggle); TLC explores every interleaving and fault position for six client scenarios, checks MemEqualsStore on the shape that mirrors the code, and exports the behaviours of the unconstrained 'split' shape as gate schedules; the driver, compiled into cmd/mcrew by overlay, replays them with the verif hooks as gates, runs sequential fault histories (bolt handle closed/reopened at every position) and free concurrent clients; TLC (Trace_Service) searches a linearization of every recorded history against ServiceProp and checks mem = store at quiescent snapshots.",
+         "8.C16", "<=4 clients with one operation each in the gated scenarios (quick replays a 480-schedule sample, thorough all ~6,000 plus the -race build); interleavings finer than the hook points and inside bbolt are not controlled; asynchronous re-processing of emissions not covered",
+         "implementation-shaped TLA+ model explored by TLC -> gate schedules replayed on the real service -> TLC linearizability trace judge"),
 }
 def main():
     checks = []
